@@ -416,10 +416,11 @@ def closer_threads(ctx, T, rng):
                 T.case(("closer", t, tie[0], reply), bucket="second-thread-close", sample={"t": t, "tie": tie[0], "server_replies": reply, "returns": res["returns"]})
                 names = [e[1] for e in res["trace"] if e[1] not in ("returned", "closer-calls-close")]
                 pub = {"kind": "closer", "t": t, "tie": tie[0], "reply": reply}
+                nclose = sum(1 for s_ in res["sockets"] for f in s_["frames"] if f[0] == 8)
                 if res.get("stuck") or res["returns"] != [False] or names.count("close") != 1 or names[-1] != "close" or "error" in names \
-                        or res["threads_alive_at_end"] or not res["app_sock_none"] or any(s["closed"] < 1 for s in res["sockets"]):
-                    T.fail("spec", pub, "returns False, one on_close last, no on_error, everything released",
-                           f"{res['returns']} {names} stuck={res.get('stuck')} alive={res['threads_alive_at_end']}"[:300],
+                        or res["threads_alive_at_end"] or not res["app_sock_none"] or any(s["closed"] < 1 for s in res["sockets"]) or nclose > 1:
+                    T.fail("spec", pub, "returns False, one on_close last, no on_error, everything released, at most one close frame written",
+                           f"{res['returns']} {names} stuck={res.get('stuck')} alive={res['threads_alive_at_end']} close_frames={nclose}"[:300],
                            {"site": "close-from-thread", "cls": "second-thread-close"},
                            what="close() from a second thread did not end the run cleanly")
                     return
